@@ -11,7 +11,7 @@ External products and CMux (`poulpy-core/src/external_product/{glwe,gglwe,ggsw}.
 Representation
 * a GLWE ciphertext is its `rank+1` columns (`List Col`), every column `size` limbs, every limb `n`
   coefficients; radix and shapes travel as explicit parameters (as in `Core.GLWE`);
-* a GGSW ciphertext is the `MatZnx` it is stored in: `dnum` rows × `rank+1` input columns, each
+* a EpGGSW ciphertext is the `MatZnx` it is stored in: `dnum` rows × `rank+1` input columns, each
   cell a GLWE (`rank+1` output columns × `size` limbs).  `GGSWPrepared` is the same content
   (`vmp_prepare` is the identity on content in the exact-integer HAL model, see `HalSpec`);
 * the DFT-domain temporaries are `Hal.Buf`s, so that `set_size` has its exact meaning: limbs beyond
@@ -26,8 +26,8 @@ Representation
 
 namespace Core
 
-/-- un-prepared / prepared GGSW: `cells[row*(rank+1) + ci]` is the GLWE of row `row`, input column `ci` -/
-structure GGSW where
+/-- un-prepared / prepared EpGGSW: `cells[row*(rank+1) + ci]` is the GLWE of row `row`, input column `ci` -/
+structure EpGGSW where
   base2k : Nat
   n : Nat
   rank : Nat
@@ -37,14 +37,14 @@ structure GGSW where
   cells : List (List Col)
 deriving Repr
 
-def GGSW.toPMat (g : GGSW) : Hal.PMat :=
+def EpGGSW.toPMat (g : EpGGSW) : Hal.PMat :=
   { n := g.n, rows := g.dnum, colsIn := g.rank + 1, colsOut := g.rank + 1, size := g.size, data := g.cells }
 
 /-- shape check of a container: `cols` columns × `size` limbs × `n` coefficients -/
 def shapeOk (n cols size : Nat) (x : List Col) : Bool :=
   x.length == cols && x.all (fun c => c.length == size && c.all (fun l => l.length == n))
 
-def GGSW.wf (g : GGSW) : Bool :=
+def EpGGSW.wf (g : EpGGSW) : Bool :=
   g.cells.length == g.dnum * (g.rank + 1) && g.cells.all (shapeOk g.n (g.rank + 1) g.size)
 
 def zeroCols (n cols size : Nat) : List Col := List.replicate cols (List.replicate size (Hal.zeroP n))
@@ -68,7 +68,7 @@ def zeroTail (b : Hal.Buf) (written full : Nat) : Hal.Buf :=
     acc.setAct c ((acc.act c).take written ++ List.replicate (full - written) (Hal.zeroP acc.n))) b'
 
 /-- one pass `di` of the `dsize > 1` loop of `glwe_external_product_internal`; state = `(res_dft, res_dft_tmp)` -/
-def epDigitPass (a : Hal.Buf) (g : GGSW) (aSize : Nat) (st : Hal.Buf × Hal.Buf) (di : Nat) : Hal.Buf × Hal.Buf :=
+def epDigitPass (a : Hal.Buf) (g : EpGGSW) (aSize : Nat) (st : Hal.Buf × Hal.Buf) (di : Nat) : Hal.Buf × Hal.Buf :=
   let cols := g.rank + 1
   let dsize := g.dsize
   let aDft0 : Hal.Buf := mkBuf g.n cols ((aSize + dsize - 1) / dsize) (zeroCols g.n cols ((aSize + dsize - 1) / dsize))
@@ -84,10 +84,10 @@ def epDigitPass (a : Hal.Buf) (g : GGSW) (aSize : Nat) (st : Hal.Buf × Hal.Buf)
     let tmp := Hal.opVmp tmp aDft g.toPMat di
     (dftAddAssignAll resDft tmp, tmp)
 
-/-- `glwe_external_product_internal(res_dft, a, ggsw)`: `a` in the radix of the GGSW; `res0` / `tmp0`
+/-- `glwe_external_product_internal(res_dft, a, ggsw)`: `a` in the radix of the EpGGSW; `res0` / `tmp0`
 are the prior contents of the two scratch DFT buffers (`cols × ggsw.size` each).  Returns the big
 accumulator (`vec_znx_idft_apply_consume`), `cols` columns of `ggsw.size` limbs. -/
-def epInternal (a : List Col) (g : GGSW) (res0 tmp0 : List Col) : List Col :=
+def epInternal (a : List Col) (g : EpGGSW) (res0 tmp0 : List Col) : List Col :=
   let cols := g.rank + 1
   let aSize := (a.getD 0 []).length
   let aBuf := mkBuf g.n cols aSize a
@@ -103,11 +103,11 @@ def epInternal (a : List Col) (g : GGSW) (res0 tmp0 : List Col) : List Col :=
     (List.range cols).map st.1.act
 
 /-- `glwe_normalize(res, a)`: `vec_znx_normalize` column by column into `resSize` limbs of radix `resBase2k` -/
-def glweNormalize (n resBase2k resSize : Nat) (a : List Col) (aBase2k : Nat) : Option (List Col) :=
+def epGlweNormalize (n resBase2k resSize : Nat) (a : List Col) (aBase2k : Nat) : Option (List Col) :=
   a.mapM (fun c => normalizeCol? resBase2k resSize 0 c aBase2k n)
 
 /-- `vec_znx_big_normalize(res, res_base2k, 0, j, res_big, a_base2k, j)` on the back end's accumulator type -/
-def bigNormalize (big128 : Bool) (n resBase2k resSize : Nat) (a : Col) (aBase2k : Nat) : Option Col :=
+def epBigNormalize (big128 : Bool) (n resBase2k resSize : Nat) (a : Col) (aBase2k : Nat) : Option Col :=
   if big128 then bigNormalizeCol128? resBase2k resSize 0 a aBase2k n
   else bigNormalizeCol64? resBase2k resSize 0 a aBase2k n
 
@@ -122,15 +122,15 @@ def optOutcome {α} (o : Option α) : Outcome α :=
 
 /-- radix conversion step shared by the external products: `a_conv` has `⌈a.size·a_base2k / ggsw_base2k⌉`
 limbs (`k: a.max_k()`), obtained with `glwe_normalize`; skipped when the radices agree -/
-def epConvert (n : Nat) (a : List Col) (aBase2k : Nat) (g : GGSW) : Option (List Col) :=
+def epConvert (n : Nat) (a : List Col) (aBase2k : Nat) (g : EpGGSW) : Option (List Col) :=
   if aBase2k ≠ g.base2k then
     let aSize := (a.getD 0 []).length
-    glweNormalize n g.base2k ((aSize * aBase2k + g.base2k - 1) / g.base2k) a aBase2k
+    epGlweNormalize n g.base2k ((aSize * aBase2k + g.base2k - 1) / g.base2k) a aBase2k
   else some a
 
 /-- **`glwe_external_product(res, a, ggsw)`** (and `_assign` with `a = res`): result columns in radix
 `resBase2k`, `resSize` limbs.  Entry assertions (`rank`, `n`) are `panic "assert"`. -/
-def glweExternalProduct (big128 : Bool) (n resBase2k resSize : Nat) (a : List Col) (aBase2k : Nat) (g : GGSW) :
+def glweExternalProduct (big128 : Bool) (n resBase2k resSize : Nat) (a : List Col) (aBase2k : Nat) (g : EpGGSW) :
     Outcome (List Col) :=
   let cols := g.rank + 1
   let aSize := (a.getD 0 []).length
@@ -141,22 +141,22 @@ def glweExternalProduct (big128 : Bool) (n resBase2k resSize : Nat) (a : List Co
     | some aConv =>
       -- res_dft.zero()
       let resBig := epInternal aConv g (zeroCols n cols g.size) (zeroCols n cols g.size)
-      optOutcome (resBig.mapM (fun c => bigNormalize big128 n resBase2k resSize c g.base2k))
+      optOutcome (resBig.mapM (fun c => epBigNormalize big128 n resBase2k resSize c g.base2k))
 
 /-- `glwe_sub(res, a, b)` for operands of equal rank -/
 def glweSubSameRank (n resSize : Nat) (a b : List Col) : List Col :=
   (List.range a.length).map (fun i => vecSub n resSize (a.getD i []) (b.getD i []))
 
 /-- the common tail of the three CMux forms: `res_big = internal(d, s); res_big[j] += add[j]; normalize` -/
-def cmuxTail (big128 : Bool) (n resBase2k resSize : Nat) (d add : List Col) (g : GGSW) (res0 tmp0 : List Col) :
+def cmuxTail (big128 : Bool) (n resBase2k resSize : Nat) (d add : List Col) (g : EpGGSW) (res0 tmp0 : List Col) :
     Outcome (List Col) :=
   let resBig := epInternal d g res0 tmp0
   optOutcome ((List.range (g.rank + 1)).mapM (fun j =>
-    bigNormalize big128 n resBase2k resSize (bigAddSmallAssign big128 (resBig.getD j []) (add.getD j [])) g.base2k))
+    epBigNormalize big128 n resBase2k resSize (bigAddSmallAssign big128 (resBig.getD j []) (add.getD j [])) g.base2k))
 
 /-- **`Cmux::cmux(res, t, f, s)`**: `res = (t − f) ⊡ s + f`.  `resSize` = limb count of `res`;
 `glwe_external_product_internal` asserts `res.base2k == s.base2k`. -/
-def cmux (big128 : Bool) (n resBase2k resSize : Nat) (t f : List Col) (g : GGSW) (res0 tmp0 : List Col) :
+def cmux (big128 : Bool) (n resBase2k resSize : Nat) (t f : List Col) (g : EpGGSW) (res0 tmp0 : List Col) :
     Outcome (List Col) :=
   let cols := g.rank + 1
   if !(g.n == n && g.wf && resBase2k == g.base2k && shapeOk n cols (t.getD 0 []).length t
@@ -166,7 +166,7 @@ def cmux (big128 : Bool) (n resBase2k resSize : Nat) (t f : List Col) (g : GGSW)
     cmuxTail big128 n resBase2k resSize d f g res0 tmp0
 
 /-- **`Cmux::cmux_assign(res, a, s)`**: `res = (res − a) ⊡ s + a` (`glwe_sub_assign`: only the common limbs change) -/
-def cmuxAssign (big128 : Bool) (n resBase2k : Nat) (res a : List Col) (g : GGSW) (res0 tmp0 : List Col) :
+def cmuxAssign (big128 : Bool) (n resBase2k : Nat) (res a : List Col) (g : EpGGSW) (res0 tmp0 : List Col) :
     Outcome (List Col) :=
   let cols := g.rank + 1
   let resSize := (res.getD 0 []).length
@@ -178,7 +178,7 @@ def cmuxAssign (big128 : Bool) (n resBase2k : Nat) (res a : List Col) (g : GGSW)
 
 /-- **`Cmux::cmux_assign_neg(res, a, s)`**: `res = (a − res) ⊡ s + res`; the difference lives in a
 temporary of `max(res.size, a.size)` limbs -/
-def cmuxAssignNeg (big128 : Bool) (n resBase2k : Nat) (res a : List Col) (g : GGSW) (res0 tmp0 : List Col) :
+def cmuxAssignNeg (big128 : Bool) (n resBase2k : Nat) (res a : List Col) (g : EpGGSW) (res0 tmp0 : List Col) :
     Outcome (List Col) :=
   let cols := g.rank + 1
   let resSize := (res.getD 0 []).length
@@ -192,7 +192,7 @@ def cmuxAssignNeg (big128 : Bool) (n resBase2k : Nat) (res a : List Col) (g : GG
 common rows, the remaining rows of `res` zeroed.  `a` and `res` are given as lists of cells
 (`rowsA·colsIn`, `rowsRes·colsIn`). -/
 def matExternalProduct (big128 : Bool) (n resBase2k resSize rowsRes rowsA colsIn : Nat)
-    (a : List (List Col)) (aBase2k : Nat) (g : GGSW) : Outcome (List (List Col)) :=
+    (a : List (List Col)) (aBase2k : Nat) (g : EpGGSW) : Outcome (List (List Col)) :=
   if resBase2k ≠ aBase2k then .panic "assert"
   else
     (List.range (rowsRes * colsIn)).foldl (fun (acc : Outcome (List (List Col))) q =>
